@@ -416,10 +416,25 @@ U_C01_Root(zz) == {DeclP([C0 |-> Class(DefaultOpts, <<U1("w"), RefF("s", "C1"), 
                            C1 |-> Class(DefaultOpts, <<U1("h"), RefF("s", "C2")>>),
                            C2 |-> Class(DefaultOpts, <<U1("t"), x>>)], {0, 1, 2}, 6, {0}) :
                       x \in {DataF("d", Lam(ERoot("w"))), OptF("o", DataF("e", Lam(ERoot("w"))), SzField("t"))}}
-U_C01(zz) == U_C08_Shared(0) \cup U_C08_Sel(0) \cup U_C01_Root(0) \cup U_C01_OverlapEm(0) \cup U_C01_Before(0) \cup U_C10_Back(0) \cup U_C01_Data(0) \cup U_C01_Move(0) \cup U_C01_Ctl(0) \cup U_C01_Overlap(0) \cup U_C07_24(0) \cup U_C07_Ctx(0)
+\* callables that SERIALISE: the position / size / count of a field is computed from len(pkt.h.pack()) - while parsing and,
+\* for positions, while the enclosing packet is itself being serialised (pack() is re-entered: the inner call must work
+\* on a buffer of its own), flat, one level down, and after bytes have already been written
+ReentHdr == Class(DefaultOpts, <<U1("n"), DataF("v", SzField("n"))>>)
+U_C01_Reent(zz) ==
+    {DeclP([C0 |-> Class(DefaultOpts, <<U1("w"), RefF("h", "C1"), x, U1("z")>>), C1 |-> ReentHdr], {0, 1, 2}, 7, {0, 1}) :
+        x \in {MvField(DataF("d", SzConst(1)), [kind |-> "at", arg |-> Lam(EBin("add", EPackLen(EF("h")), EC(2))), ref |-> "innermost-pkt"]),
+               MvField(U1("d"), [kind |-> "shift", arg |-> Lam(EBin("sub", EPackLen(EF("h")), EC(1))), ref |-> "current-offset"]),
+               MvField(U1("d"), [kind |-> "aligned", arg |-> Lam(EBin("add", EPackLen(EF("h")), EC(1))), ref |-> "innermost-pkt"]),
+               DataF("d", Lam(EPackLen(EF("h")))),
+               RepCountF("r", U1("e"), Lam(EBin("sub", EPackLen(EF("h")), EC(1))), NoCond, 0)}}
+    \cup {DeclP([C0 |-> Class(DefaultOpts, <<U1("w"), RefF("s", "C2"), U1("z")>>),
+                 C2 |-> Class(DefaultOpts, <<U1("t"), RefF("h", "C1"),
+                                             MvField(U1("d"), [kind |-> "at", arg |-> Lam(EBin("add", EPackLen(EF("h")), EC(k))), ref |-> "innermost-pkt"])>>),
+                 C1 |-> ReentHdr], {0, 1, 2}, 7, {0}) : k \in {1, 2}}
+U_C01(zz) == U_C01_Reent(0) \cup U_C08_Shared(0) \cup U_C08_Sel(0) \cup U_C01_Root(0) \cup U_C01_OverlapEm(0) \cup U_C01_Before(0) \cup U_C10_Back(0) \cup U_C01_Data(0) \cup U_C01_Move(0) \cup U_C01_Ctl(0) \cup U_C01_Overlap(0) \cup U_C07_24(0) \cup U_C07_Ctx(0)
 
 \* the every-change subset: every family is represented, the cross products are thinned
-U_C01_Q(zz) == U_C08_Shared(0) \cup U_C08_Sel(0) \cup U_C01_Root(0) \cup U_C01_OverlapEm(0) \cup U_C01_Data(0) \cup U_C01_Overlap(0) \cup U_C07_24(0) \cup U_C01_Before(0) \cup U_C10_Back(0)
+U_C01_Q(zz) == U_C01_Reent(0) \cup U_C08_Shared(0) \cup U_C08_Sel(0) \cup U_C01_Root(0) \cup U_C01_OverlapEm(0) \cup U_C01_Data(0) \cup U_C01_Overlap(0) \cup U_C07_24(0) \cup U_C01_Before(0) \cup U_C10_Back(0)
            \cup {[d EXCEPT !.alpha = {0, 1, 46}] : d \in U_C10_Class(0) \cup U_C10_Elem(0)}
            \cup {[d EXCEPT !.alpha = {0, 2, 46}, !.starts = {0}] : d \in U_C10_Flat(0)}
            \cup U_C08_Until(0) \cup U_C08_Nest(0)
@@ -472,6 +487,7 @@ PickU(n) ==
       [] n = "U_C10_Kw" -> U_C10_Kw(0)
       [] n = "U_C04_Lone" -> U_C04_Lone(0)
       [] n = "U_C01_Root" -> U_C01_Root(0)
+      [] n = "U_C01_Reent" -> U_C01_Reent(0)
       [] n = "U_C08" -> U_C08(0)
       [] n = "U_C10_Flat" -> U_C10_Flat(0)
       [] n = "U_C10_Nest" -> U_C10_Nest(0)
